@@ -398,7 +398,7 @@ func (vc *VC) modularCall(fr *frame, callee *ssa.Function, key string, c *Contra
 	}
 	// results
 	var res Val
-	if c.Extern || c.Trusted || c.Pure && callee != nil && callee.Blocks == nil {
+	if c.Extern || c.Trusted || c.Functional || c.Pure && callee != nil && callee.Blocks == nil {
 		res = vc.ufApply(st, key, args, rt, hint)
 	} else {
 		res = vc.freshResult(st, rt, hint)
